@@ -317,7 +317,7 @@ func runC17(c *wk.Ctx) {
 	c.Floor("injections", 3000)
 	c.Floor("op:Unserialize", 1000)
 	c.Floor("op:Validate", 1000)
-	n := c.N(12000, 300000)
+	n := c.N(12000, 2400000)
 	c.Cases(n, func(idx int64, r *wk.Rand) {
 		if idx%5 == 4 {
 			c17StructCase(c, r, idx)
